@@ -46,6 +46,13 @@ class LazyOpt:
         self.value = value
 
 
+class _CompView:
+    """Lets _comp treat a DictComp like the other comprehensions."""
+    def __init__(self, node):
+        self.generators = node.generators
+        self.elt = None
+
+
 class Env:
     __slots__ = ("vars", "parent", "module", "funcdef", "frame_id")
 
@@ -778,6 +785,8 @@ class Interp:
 
     def _comp(self, node, env, elt_fn):
         out = []
+        if not hasattr(node, "elt"):
+            node = _CompView(node)
 
         def rec(gi, e):
             if gi == len(node.generators):
@@ -799,6 +808,24 @@ class Interp:
         v = self._comp(node, env, lambda e: self.eval(node.elt, e))
         self.heap_log.append(("alloc-list", id(v), None, self.where()))
         return v
+
+    def ex_DictComp(self, node, env):
+        # {k: v for k in iterable}: over a set of names this is the for-each-insert pattern
+        if len(node.generators) == 1 and not node.generators[0].ifs:
+            g = node.generators[0]
+            it = self.eval(g.iter, env)
+            from . import foreach
+            lazy = foreach.dict_comprehension(self, it, node, g, env)
+            if lazy is not None:
+                return lazy
+        d = self.bi.new_dict()
+        pairs = self._comp(node, env, lambda e: (self.eval(node.key, e), self.eval(node.value, e)))
+        for k, v in pairs:
+            self.bi.setitem(d, k, v, new=True)
+        return d
+
+    def ex_SetComp(self, node, env):
+        return self.bi.make_set(self._comp(node, env, lambda e: self.eval(node.elt, e)))
 
     def ex_GeneratorExp(self, node, env):
         return GeneratorList(self._comp(node, env, lambda e: self.eval(node.elt, e)))
